@@ -244,35 +244,43 @@ def backend_sibling(repo, res):
     key = "numba.formatter:ArrayDecl"
     res.ob(key)
     ev = Eval(tabs["numba"], classes, precedence_table(repo))
-    # sizes
+    # sizes: both tensor_sizes implementations interpreted on sample IR records
+    from ..absint import Interp as _I, Node as _N, Raised as _R, _PyCall as _PC
+
     cm = repo.mod("ffcx.codegeneration.common")
     for fn in [f for f in cm.funcs.values() if f.node.name == "_" and "KernelTensorSizes" in ast.unparse(f.node)]:
         res.functions.add(fn.key)
-        src = ast.unparse(fn.node)
         kind = "integral" if "IntegralIR" in ast.unparse(fn.node.args) else "expression"
-        key = f"common.tensor_sizes[{kind}]:A"
-        res.ob(key)
-        if kind == "integral" and "A = np.prod(ir.expression.tensor_shape, dtype=int)" not in src:
-            res.fail(key, "A is not sized prod(tensor_shape)", cm.line(fn.node))
-        if kind == "expression" and not re.search(r"A = num_points \* num_components \* num_argument_dofs", src):
-            res.fail(key, "expression A is not sized num_points * num_components * num_argument_dofs", cm.line(fn.node))
-        key = f"common.tensor_sizes[{kind}]:w"
-        res.ob(key)
-        dbl = re.search(r"interior_facet", src) is not None
-        if kind == "integral" and not dbl:
-            res.fail(key, "the size declared for w (and coordinate_dofs) ignores the doubling on interior facets "
-                     "(ufcx.h: w[coefficient][restriction][dof], coordinate_dofs[restriction][num_dofs][3]): under plain Python / "
-                     "bounds checking the '-' side is out of range", cm.line(fn.node), props=("C18", "C08"))
-        if "coords = " in src and not re.search(r"number_coordinate_dofs \* 3", src):
-            res.fail(key, "coordinate_dofs are not sized 3 * number of coordinate dofs", cm.line(fn.node))
-        key = f"common.tensor_sizes[{kind}]:perm"
-        res.ob(key)
-        if not re.search(r"permutation = 2 if ir\.expression\.needs_facet_permutations else 0", src) or "local_index = 2" not in src:
-            res.fail(key, "entity index / permutation views are not sized 2 (0 permutations when not needed)", cm.line(fn.node))
-        key = f"common.tensor_sizes[{kind}]:order"
-        res.ob(key)
-        if "return KernelTensorSizes(A, w, c, coords, local_index, permutation)" not in src:
-            res.fail(key, "KernelTensorSizes fields are filled in a different order", cm.line(fn.node))
+        el = lambda d: _N("Coefficient", ufl_element=_PC(lambda _d=d: _N("Element", dim=_d)))  # noqa: E731
+        con = lambda sh: _N("Constant", ufl_shape=tuple(sh))  # noqa: E731
+        for itype, needs in (("cell", False), ("exterior_facet", False), ("interior_facet", True), ("interior_facet", False)):
+            if kind == "expression" and itype != "cell":
+                continue
+            key = f"common.tensor_sizes[{kind}]:{itype}:perm={needs}"
+            res.ob(key)
+            rule_ = _N("QuadratureRule", points=_N("ndarray", shape=(5, 2), size=10))
+            ex = _N("ExpressionIR", tensor_shape=[3, 4], shape=[2], integral_type=itype, coefficient_offsets={el(6): 0, el(3): 6},
+                    original_constant_offsets={con(()): 0, con((2, 3)): 1}, number_coordinate_dofs=4, needs_facet_permutations=needs,
+                    integrand={("cell", rule_): {}})
+            it_ = _I(repo, load_classes(repo), primary="ffcx.codegeneration.common")
+            it_.overrides["np.int32"] = "np.int32"
+            it_.overrides["np.int64"] = "np.int64"
+            try:
+                out = it_.call_f(fn, [_N("IR", expression=ex)])
+            except _R as e:
+                res.fail(key, f"tensor_sizes[{kind}] raises ({e.what})", cm.line(fn.node), props=("C18", "C08"))
+                continue
+            if not isinstance(out, _N) or "__fields__" not in out.f:
+                res.fail(key, f"tensor_sizes[{kind}] does not return KernelTensorSizes", cm.line(fn.node), props=("C18",))
+                continue
+            got = {k_: out.f[k_] for k_ in out.f["__fields__"]}
+            width = 2 if (kind == "integral" and itype == "interior_facet") else 1
+            want = {"A": 12 if kind == "integral" else 5 * 2 * 12, "w": width * 9, "c": 7, "coords": width * 12, "local_index": 2, "permutation": 2 if needs else 0}
+            if got != want:
+                diffs = {k_: (got.get(k_), want[k_]) for k_ in want if got.get(k_) != want[k_]}
+                res.fail(key, f"sizes declared for the numba views of a {itype} {kind} kernel differ from ufcx.h (got, expected): {diffs} - A = prod(tensor shape) "
+                         "[points*components*dofs for expressions]; w[coefficient][restriction][dof] and coordinate_dofs[restriction][node][3] doubled on interior "
+                         "facets; 2 entity indices; 2 permutations when needed", cm.line(fn.node), props=("C18", "C08"))
     # both numba generators use the sizes for the right views
     for kind in ("integral", "expression"):
         g = repo.mod(f"ffcx.codegeneration.numba.{kind}").func("generator")
